@@ -3,6 +3,7 @@ import Driver.ExecOps
 import Driver.CodecOps
 import Driver.ChecksumOps
 import Driver.DiagOps
+import Driver.FramerOps
 import Driver.PayloadOps
 import Driver.DevIdOps
 open Lean Driver
@@ -20,6 +21,8 @@ def dispatch (j : Json) : P Json := do
   | "devid_enc" => opDevIdEnc j
   | "payload" => opPayload j
   | "pdecode" => opPDecode j
+  | "feed" => opFeed j
+  | "build" => opBuild j
   | "crc" => opCrc j
   | "lrc" => opLrc j
   | "crctable" => opCrcTable j
